@@ -205,6 +205,10 @@ type vfC19Ups struct {
 	suffix   string
 	asked    []vfC19Ask
 	failNext bool
+	// failRcode, if not 0, makes the injected failure an answer with this
+	// response code and no records (SERVFAIL, REFUSED) instead of an error of
+	// the exchange.
+	failRcode int
 	// onAnswer tells the model what the service has just revealed for a prefix.
 	onAnswer func(p vfC19Pfx, es []vfC19Entry)
 }
@@ -249,6 +253,12 @@ func (u *vfC19Ups) Exchange(req *dns.Msg) (resp *dns.Msg, err error) {
 		u.failNext = false
 		ask.failed = true
 		u.asked = append(u.asked, ask)
+		if u.failRcode != 0 {
+			resp = (&dns.Msg{}).SetRcode(req, u.failRcode)
+			u.failRcode = 0
+
+			return resp, nil
+		}
 
 		return nil, vfC19ErrInjected
 	}
